@@ -218,8 +218,14 @@ type Interp struct {
 	// read results from it (HeapAt, Elem).
 	finalHeap map[string]Val
 	heapGen   int
-	depth     int
-	stack     []*ssa.Function
+	// steps counts block evaluations over the whole query; beyond maxSteps
+	// every activation gives up (unknown result) and the query is marked
+	// stuck, so that a non-converging evaluation ends as "undecided".
+	steps      int
+	maxSteps   int
+	overBudget bool
+	depth      int
+	stack      []*ssa.Function
 	// OpaqueSubject is set when a branch condition was unknown because of a
 	// subject-derived value the evaluator could not follow.
 	OpaqueSubject bool
@@ -247,7 +253,7 @@ type Interp struct {
 }
 
 func NewInterp(p *Prog) *Interp {
-	return &Interp{Prog: p, PathBind: map[string]Val{}, heap: map[string]Val{},
+	return &Interp{Prog: p, PathBind: map[string]Val{}, heap: map[string]Val{}, maxSteps: 400000,
 		Sizes: types.SizesFor("gc", "amd64"), ReachedAny: map[ssa.Instruction]bool{}}
 }
 
@@ -301,6 +307,13 @@ func (in *Interp) RunOuter(fn *ssa.Function, args []Val, start *ssa.BasicBlock, 
 	if in.depth > 8 {
 		return Outcome{CanReturn: true, CanPanic: true}
 	}
+	if in.steps > in.maxSteps {
+		if !in.overBudget {
+			in.overBudget = true
+			in.Stuck = append(in.Stuck, "evaluation budget exhausted in "+FnName(fn))
+		}
+		return Outcome{CanReturn: true, CanPanic: true}
+	}
 	in.depth++
 	in.stack = append(in.stack, fn)
 	defer func() { in.depth--; in.stack = in.stack[:len(in.stack)-1] }()
@@ -317,6 +330,7 @@ func (in *Interp) RunOuter(fn *ssa.Function, args []Val, start *ssa.BasicBlock, 
 	observing := in.collect || in.depth == 1
 	in.collect = false
 	pass := func() {
+		in.steps += len(fr.blocks)
 		fr.memo = map[ssa.Value]Val{}
 		fr.must = map[ssa.Instruction]bool{}
 		fr.returns = map[*ssa.Return][]Val{}
@@ -344,6 +358,13 @@ func (in *Interp) RunOuter(fn *ssa.Function, args []Val, start *ssa.BasicBlock, 
 			}
 		}
 		if !fr.changed && gen == in.heapGen {
+			break
+		}
+		if in.steps > in.maxSteps {
+			if !in.overBudget {
+				in.overBudget = true
+				in.Stuck = append(in.Stuck, "evaluation budget exhausted in "+FnName(fn))
+			}
 			break
 		}
 		if round == 199 {
@@ -1526,6 +1547,32 @@ func (fr *frame) builtin(name string, c *ssa.Call, args []Val) Val {
 		fr.store(Val{K: KPtr, S: base + "[*]"}, top)
 		return Val{K: KSlice, S: base, Len: -1}
 	case "cap":
+		return top
+	case "copy":
+		// dst[i] = src[i]; with unknown extents every element of dst may change
+		if len(args) == 2 && args[0].K == KSlice {
+			dst, src := args[0], args[1]
+			et := types.Type(types.Typ[types.Invalid])
+			if st, ok := c.Call.Args[0].Type().Underlying().(*types.Slice); ok {
+				et = st.Elem()
+			}
+			n := -1
+			if dst.Len >= 0 && src.K == KSlice && src.Len >= 0 {
+				n = dst.Len
+				if src.Len < n {
+					n = src.Len
+				}
+			}
+			if n >= 0 && n <= 64 && src.K == KSlice {
+				for i := 0; i < n; i++ {
+					fr.store(Val{K: KPtr, S: fmt.Sprintf("%s[%d]", dst.S, dst.Off+i)}, fr.load(fmt.Sprintf("%s[%d]", src.S, src.Off+i), et))
+				}
+			} else if src.K == KSlice {
+				fr.store(Val{K: KPtr, S: dst.S + "[*]"}, fr.load(src.S+"[*]", et))
+			} else {
+				fr.store(Val{K: KPtr, S: dst.S + "[*]"}, top)
+			}
+		}
 		return top
 	}
 	return top
